@@ -85,6 +85,43 @@ def main(tier="quick"):
     t3 = (good == [] and k in bad)
     print("%-34s %s   (clean: %d rejected; convolution re-labelled non-linear -> rejected at %s)" % ("Trace_LinearProg binding", "ok" if t3 else "FAILED", len(good), bad[:3]))
     ok &= t3
+    # ---- (c) helper fidelity: the replay of MC_Helpers must notice a helper that stops being its transcription
+    from . import helperchecks
+    from pytorch_wavelets.dwt import lowlevel as _ll
+    import torch as _torch
+    r0 = common.Report("selftest", "quick")
+    helperchecks.helper_fidelity(r0, "selftest", "quick")
+    real_roll, real_m2i = _ll.roll, _ll.mode_to_int
+    _ll.roll = lambda x, n, dim, make_even=False: _torch.roll(x, n, dim)          # a textbook cyclic roll (differs out of range)
+    _ll.mode_to_int = lambda m: {"periodic": 2}.get(m, real_m2i(m))                # 'periodic' aliased to periodization
+    try:
+        r1 = common.Report("selftest", "quick")
+        helperchecks.helper_fidelity(r1, "selftest", "quick", kinds={"h.roll", "h.mode"})
+    finally:
+        _ll.roll, _ll.mode_to_int = real_roll, real_m2i
+    t4 = (r0.extra.get("helper_deviations", 0) == 0 and r1.extra.get("helper_deviations", 0) >= 2 and not r0.machinery)
+    print("%-34s %s   (clean: %d deviations; textbook roll + aliased mode -> %d deviations)" % (
+        "MC_Helpers binding", "ok" if t4 else "FAILED", r0.extra.get("helper_deviations", 0), r1.extra.get("helper_deviations", 0)))
+    ok &= t4
+    # ---- (d) constructor / state schema: a module that stores one filter the other way round must be noticed
+    from . import ctorchecks
+    import pytorch_wavelets as _pw
+    real_cls = _pw.DWT1DForward
+
+    class Flipped(real_cls):
+        def __init__(self, *a, **k):
+            super().__init__(*a, **k)
+            self.h1 = self.h1.flip(-1)
+    r2 = common.Report("selftest", "quick")
+    _pw.DWT1DForward = Flipped
+    try:
+        ctorchecks.ctor_fidelity(r2, "selftest", "quick")
+    finally:
+        _pw.DWT1DForward = real_cls
+    t5 = r2.extra.get("ctor_deviations", 0) > 0 and not r2.machinery
+    print("%-34s %s   (DWT1DForward storing h1 unreversed -> %d deviations)" % ("MC_Ctor binding", "ok" if t5 else "FAILED",
+                                                                              r2.extra.get("ctor_deviations", 0)))
+    ok &= t5
     for m in rep.machinery[:5]:
         print("machinery:", m)
     ok &= not rep.machinery
